@@ -214,7 +214,7 @@ TTie == Report("TTie",
   {x \in Syms \cup {0} : LET a == Sym(x) IN Cardinality(Top(a.M)) > 1})
 
 (* T-part (C07), model of the generator's rule at the end of a prefix buffer. *)
-Commits == g = 0 \/ ~GPrefixReturnsNone(D.g, g)
+Commits == ~atStart /\ (g = 0 \/ ~GPrefixReturnsNone(D.g, g))
 MustCommit == Det /\ (~HasLook \/ detPrev)
 TPartSafe   == Report("TPartSafe",   IF CanEnd /\ Commits /\ ~Det THEN {0} ELSE {})
 TPartPrompt == Report("TPartPrompt", IF CanEnd /\ MustCommit /\ ~Commits THEN {0} ELSE {})
